@@ -215,7 +215,7 @@ def run(ctx):
         per_run[i] = (per, outs)
         for q in range(P):
             evs = []
-            for e in per[q]:
+            for e in [x for x in per[q] if x[0] != "W"]:
                 if e[0] == "S":
                     evs.append("S %x %x -" % (e[1], e[2]))
                 elif e[0] == "R":
